@@ -347,6 +347,37 @@ def run(ck):
                                      match={'kind': 'closure-support'})
                     ext_rows.append((lab + (r,), der, steps, w))
     ck.cov['closure_oracle_worst_relative_defect'] = float(worst_or)
+    # ---- per-side boundary parameters act on their own side only: a matrix built with different parameter dicts for the two sides
+    #      (keys given for one side only; the other side falls back to the documented defaults) must consist of the left rows of the
+    #      matrix built with the left dict on both sides and the right rows of the matrix built with the right dict on both sides
+    nside = 0
+    for der, order, st in combos[:: (2 if thorough else 5)]:
+        for bc in ['dirichlet', 'neumann', ('dirichlet', 'neumann'), ('neumann', 'dirichlet')]:
+            size = 2 * (order + der) + 3
+            variants = [({'val': 1.5}, {}), ({}, {'val': -0.75}), ({'val': 2.0, 'reduce': True}, {}), ({}, {'reduce': True}),
+                        ({'neumann_bc_order': 2, 'val': 0.5}, {}), ({}, {'neumann_bc_order': 2}),
+                        ({'val': 1.25, 'neumann_bc_order': max(1, order - 1)}, {'val': -2.0, 'reduce': True})]
+            for dl, dr in variants:
+                try:
+                    kw3 = dict(derivative=der, order=order, stencil_type=st, dx=1.0, size=size, dim=1, bc=bc)
+                    Aa, ba = ph.get_finite_difference_matrix(bc_params=[dict(dl), dict(dr)], **kw3)
+                    Al, bl = ph.get_finite_difference_matrix(bc_params=[dict(dl), dict(dl)], **kw3)
+                    Ar, br = ph.get_finite_difference_matrix(bc_params=[dict(dr), dict(dr)], **kw3)
+                except Exception as e:
+                    continue
+                Da, Dl, Dr = (np.asarray(x.todense(), dtype=float) for x in (Aa, Al, Ar))
+                half = size // 2
+                nside += 1
+                ck.evaluations += 1
+                okL = np.array_equal(Da[:half], Dl[:half]) and np.array_equal(np.asarray(ba)[:half], np.asarray(bl)[:half])
+                okR = np.array_equal(Da[half:], Dr[half:]) and np.array_equal(np.asarray(ba)[half:], np.asarray(br)[half:])
+                if not (okL and okR):
+                    ck.violation('boundary parameters of one side act on the other side: matrix built with per-side parameter dicts %r / %r is not '
+                                 'made of the left rows for the left dict and the right rows for the right dict (%s side differs)'
+                                 % (dl, dr, 'left' if not okL else 'right'),
+                                 {'call': 'get_finite_difference_matrix', 'derivative': der, 'order': order, 'stencil_type': st, 'bc': str(bc), 'size': size,
+                                  'bc_params': [dl, dr]}, match={'kind': 'bc-params-side', 'side': 'left' if not okL else 'right'})
+    ck.cov['per_side_parameter_cases'] = nside
 
     if ext_rows:
         L = ['From Coq Require Import ZArith List Bool.', 'From PySDC Require Import Base.Dyadic Model.FD.',
